@@ -60,5 +60,9 @@ def run(prog, chk, tier):
     rule_exact_reads(prog, chk, "C04")
     hdr = bec2.header_reader_rules(prog, chk, "C04")
     bec2.key_flow_rules(prog, chk, "C04", hdr)
+    # the MACs the guards compare are one CBC chain over the whole (zero-padded) data, last block: a MAC that covers only part of its input lets damage through
+    from rules import adapter
+
+    adapter.mac_definition_rules(prog, chk, "C04")
     stackrt.guarded(chk, "C04.tamper-scenarios", stacktamper.tamper_rules, prog, chk, "C04", tier)
     chk.assume("AES-CBC-MAC under an unknown key is unforgeable; the BEC2 header itself is protected per block (CRC inside the AES container / ECIES), not by a MAC")
